@@ -12,7 +12,7 @@ program does when executed directly) and of C05 (which lines each thread/task ex
 result = {
   'streams': [ {'key': 'thread:0'|'task:1', 'kind': 'thread'|'task', 'main_thread': bool,
                 'thread': int, 'first_seq': int} ... ]            # in order of first event
-  'frames':  [ [module_name, code_name, file_name, gen_flag, first_line] ... ]   # index = frame id
+  'frames':  [ [module_name, code_name, file_name, gen_flag, first_line, last_line] ... ]   # index = frame id
   'events':  [ [stream_index, kind, frame_id, parent_frame_id|-1, line, exc_info] ... ]
                kind: 0 call, 1 line, 2 return, 3 exception;  exc_info: 0 | [type_name, is_StopIteration,
                is_GeneratorExit, traceback_is_None, innermost traceback frame id|-1, its line, its f_back id|-1, its generator flag]
@@ -86,8 +86,9 @@ class Recorder:
                 self.frames[k] = i
                 self.keep.append(frame)
                 co = frame.f_code
+                last = max((l for _, _, l in co.co_lines() if l is not None), default=co.co_firstlineno)
                 self.frame_info.append([frame.f_globals.get('__name__'), co.co_name, co.co_filename,
-                                        1 if co.co_flags & GEN_FLAGS else 0, co.co_firstlineno])
+                                        1 if co.co_flags & GEN_FLAGS else 0, co.co_firstlineno, last])
         return i
 
     def trace(self, frame, event, arg):
